@@ -248,44 +248,16 @@ func generateLoop(l *ast.AstLoop, offset int, state *GenState) ([]SearchInstruct
 	result := []SearchInstruction{}
 
 	current_offset := offset
-	if l.Min > 0 && l.Name == "" {
-		for i := 0; i < l.Min; i++ {
-			// the body is generated again below (next copy or the optional part), so the names it
-			// declares must not count as clashes with themselves
-			declared := make(map[string]int, len(state.variables))
-			for name, value := range state.variables {
-				declared[name] = value
-			}
-			// I kinda hate generating this everytime but I also hate the other way where we have to adjust offset values to keep pointers in the body lined up
-			body, gen_error := generateSearchInstruction(&l.Body, current_offset, state)
-			if gen_error != nil {
-				return []SearchInstruction{}, gen_error
-			}
-			result = append(result, body...)
-			current_offset += len(body)
-			if i < l.Min-1 || l.Min != l.Max {
-				state.variables = declared
-			}
-		}
-	}
-
-	if l.Min == l.Max && l.Name == "" {
-		return result, nil
-	}
-
+	// The mandatory iterations are counted at run time (StartLoop.MinLoops), as they always were for
+	// named loops. Unrolling them made the program, and the time and memory needed to compile it,
+	// grow with the count itself (`exactly 1000000000 'a'`) and multiply under nesting.
 	body, gen_error := generateSearchInstruction(&l.Body, current_offset+1, state)
 	if gen_error != nil {
 		return []SearchInstruction{}, gen_error
 	}
 
 	newMin := l.Min
-	if l.Min > 0 && l.Name == "" {
-		newMin = 0
-	}
 	newMax := l.Max
-	if l.Max > 0 && l.Name == "" {
-		newMax = l.Max - l.Min
-	}
 
 	id := rand.Int63()
 
